@@ -103,16 +103,27 @@ pub fn run_world_plain(cfg: &Cfg, steps: &[Step]) -> CaseOut {
     world_out(w, steps)
 }
 
-pub fn world_out(w: World, steps: &[Step]) -> CaseOut {
+pub fn world_out(mut w: World, steps: &[Step]) -> CaseOut {
     let mut out = CaseOut::default();
     out.log_hash = w.log.0;
-    out.sim_steps = w.stats.calls;
+    out.sim_steps = w.stats.calls + w.sim_time;
     out.nontrivial = steps.iter().any(|s| s.is_mutating())
-        && steps.iter().any(|s| matches!(s, Step::Reopen { .. }));
-    out.stats = w.stats;
-    out.states = w.distinct_states;
-    out.aborted = w.aborted;
-    out.viols = w.viols;
+        && steps.iter().any(|s| {
+            matches!(
+                s,
+                Step::Reopen { .. }
+                    | Step::Tamper { .. }
+                    | Step::TamperAll { .. }
+                    | Step::RawRequest { .. }
+                    | Step::RawProof { .. }
+                    | Step::CrashRestart { .. }
+                    | Step::NetDeliver { .. }
+            )
+        });
+    out.stats = std::mem::take(&mut w.stats);
+    out.states = std::mem::take(&mut w.distinct_states);
+    out.aborted = w.aborted.take();
+    out.viols = std::mem::take(&mut w.viols);
     out
 }
 
@@ -221,14 +232,17 @@ pub fn replay(path: &str) -> (ReplayFile, CaseOut, bool) {
 fn steps_of(case: &Case) -> Option<&Vec<Step>> {
     match &case.body {
         Body::World { steps, .. } => Some(steps),
+        Body::Config(spec) => Some(&spec.steps),
         _ => None,
     }
 }
 
 fn with_steps(case: &Case, new_steps: Vec<Step>) -> Case {
     let mut c = case.clone();
-    if let Body::World { steps, .. } = &mut c.body {
-        *steps = new_steps;
+    match &mut c.body {
+        Body::World { steps, .. } => *steps = new_steps,
+        Body::Config(spec) => spec.steps = new_steps,
+        _ => {}
     }
     c
 }
